@@ -129,17 +129,21 @@ func (s *Server) Shutdown(ctx context.Context) error {
 	}
 	// the lock is not held while waiting for the requests to finish, they take it for the rate limit
 	err := hs.Shutdown(ctx)
+	if err != nil {
+		// requests that did not finish before the context ended are cut off, the store is closed all the same
+		_ = hs.Close()
+	}
 	s.mu.Lock()
 	defer s.mu.Unlock()
 	if s.httpServer == hs {
 		s.httpServer = nil
 	}
-	if err != nil {
-		return err
-	}
 	if s.store != nil {
-		err = s.store.Close()
+		errClose := s.store.Close()
 		s.store = nil
+		if err == nil {
+			err = errClose
+		}
 	}
 	return err
 }
